@@ -56,6 +56,7 @@ func simModfile() []string {
 	os.WriteFile(dst, []byte(strings.Replace(string(b), "=> /repo", "=> "+repoDir, 1)), 0644)
 	sum, _ := os.ReadFile(filepath.Join(verifDir, "sim", "go.sum"))
 	os.WriteFile(strings.TrimSuffix(dst, ".mod")+".sum", sum, 0644)
+	modfileToRemove = dst
 	return []string{"-modfile", dst}
 }
 
@@ -140,10 +141,23 @@ type knownEntry struct {
 // scratchToRemove is this run's scratch directory (database directories, worker outputs); it lives in memory.
 var scratchToRemove string
 
+// filesToRemove are the worker binaries built for this run.
+var filesToRemove []string
+
+// modfileToRemove is the go.mod copy written for a repository other than /repo.
+var modfileToRemove string
+
 // exit leaves nothing behind.
 func exit(code int) {
 	if scratchToRemove != "" {
 		os.RemoveAll(scratchToRemove)
+	}
+	if modfileToRemove != "" {
+		os.Remove(modfileToRemove)
+		os.Remove(strings.TrimSuffix(modfileToRemove, ".mod") + ".sum")
+	}
+	for _, f := range filesToRemove {
+		os.RemoveAll(f)
 	}
 	os.Exit(code)
 }
@@ -196,6 +210,7 @@ func build(out string, race bool) {
 	args := []string{"test", "-c", "-tags", "verif", "-o", out}
 	args = append(args, simModfile()...)
 	ovl := out + ".instr"
+	filesToRemove = append(filesToRemove, ovl, out)
 	args = append(args, instrumentOverlay(ovl)...)
 	defer os.RemoveAll(ovl)
 	if race {
@@ -409,7 +424,7 @@ func main() {
 	} else {
 		build(bin, false)
 	}
-	defer os.Remove(bin)
+	filesToRemove = append(filesToRemove, bin)
 
 	// scenario list from the binary itself
 	listOut := bin + ".list.json"
@@ -439,7 +454,7 @@ func main() {
 	if needRace {
 		raceBin = filepath.Join(binDir, fmt.Sprintf("worker-%s-%d.race.test", prop, os.Getpid()))
 		build(raceBin, true)
-		defer os.Remove(raceBin)
+		filesToRemove = append(filesToRemove, raceBin)
 	}
 	buildS := time.Since(start).Seconds()
 
@@ -935,7 +950,7 @@ func doReplay(prop, path, binDir string) {
 	} else {
 		build(bin, rf.Race)
 	}
-	defer os.Remove(bin)
+	filesToRemove = append(filesToRemove, bin)
 	cmd := exec.Command(bin, "-test.run", "^TestWorker$", "-test.timeout", "0", "-mode", "replay", "-scenario", rf.Scenario, "-trace", path)
 	cmd.Env = goEnv()
 	var so, se bytes.Buffer
@@ -944,7 +959,7 @@ func doReplay(prop, path, binDir string) {
 	os.Stdout.Write(so.Bytes())
 	if err == nil {
 		os.Remove(bin)
-		os.Exit(0)
+		exit(0)
 	}
 	code := 2
 	if ee, ok := err.(*exec.ExitError); ok {
@@ -952,7 +967,7 @@ func doReplay(prop, path, binDir string) {
 	}
 	if code == 1 && strings.Contains(so.String(), "VIOLATION property=") {
 		os.Remove(bin)
-		os.Exit(1)
+		exit(1)
 	}
 	// the process died: a crash-class violation reproduces if the same origin panics again
 	real, origin, head := classifyCrash(se.String() + so.String())
@@ -964,7 +979,7 @@ func doReplay(prop, path, binDir string) {
 	if real && (rf.Violation.Oracle == "process_crash" || rf.Violation.Oracle == "data_race" || rf.Violation.Oracle == "process_wedge") && strings.HasSuffix(rf.Violation.Key, origin) {
 		fmt.Printf("REPLAY: reproduced: %s in %s\n", head, origin)
 		fmt.Printf("VIOLATION property=%s replay=%s\n", prop, path)
-		os.Exit(1)
+		exit(1)
 	}
-	os.Exit(2)
+	exit(2)
 }
